@@ -7,7 +7,7 @@
      serialization/utils.rs                    read_nint, write_nint (since /repo 07262c5)
      protocol_types/numeric/big_int.rs:63-77   BigInt::as_int
      protocol_types/metadata.rs                encode_number (JSON number -> Int), BasicConversions map key -> Int
-     builders/mint_builder.rs:97-195           add_asset / set_asset accumulation (since /repo 3669e5e), build
+     builders/mint_builder.rs:97-205           add_asset / set_asset accumulation (since /repo 3669e5e and 0175f0b), build
      lib.rs MintAssets::insert / new_from_entry (zero rejected), Mint::as_positive/negative_multiasset
    An Int is modelled by its mathematical value (Z); the range invariant is [int_in_range].
    The *_legacy definitions are the code before the repairs (kept for the refutation lemmas).
@@ -140,18 +140,20 @@ Inductive mint_op := MAdd (k : N) (amount : Z) | MSet (k : N) (amount : Z).
 
 Definition i128_ok (z : Z) : bool := (- two127 <=? z) && (z <? two127).
 
-(* update_mint_value: zero rejected; entry(..).or_insert(0); overwrite or checked accumulation.
-   Returns the new state and whether the call returned Ok. *)
+(* update_mint_value: zero rejected; a quantity below -(2^64-1) rejected (since /repo 0175f0b: the burn side is
+   balanced in u64 quantities); entry(..).or_insert(0); overwrite or checked accumulation within -(2^64-1)..2^64-1
+   (since /repo 3669e5e / 0175f0b).  Returns the new state and whether the call returned Ok. *)
+Definition mint_min : Z := - int_max.
 Definition mint_step (s : mint_state) (op : mint_op) : mint_state * bool :=
   match op with
-  | MSet k a => if a =? 0 then (s, false) else (ms_set k a s, true)
+  | MSet k a => if (a =? 0) || (a <? mint_min) then (s, false) else (ms_set k a s, true)
   | MAdd k a =>
-      if a =? 0 then (s, false)
+      if (a =? 0) || (a <? mint_min) then (s, false)
       else
         let cur := match ms_get k s with Some v => v | None => 0 end in
         let s0 := match ms_get k s with Some _ => s | None => ms_set k 0 s end in
         let sum := cur + a in
-        if i128_ok sum && int_in_range sum then (ms_set k sum s0, true) else (s0, false)
+        if i128_ok sum && ((mint_min <=? sum) && (sum <=? int_max)) then (ms_set k sum s0, true) else (s0, false)
   end.
 
 (* before /repo 3669e5e: mint.0 += amount.0 (unchecked in the Int range) *)
